@@ -85,7 +85,7 @@ func one(cs Case) (why, key string, trace []string) {
 	if err := ex.ExecuteN(context.Background(), 0); err == nil {
 		return "setup: failing run did not fail", "setup", nil
 	}
-	if r := w.Revs[ver]; r == nil || r.Applied != cs.K {
+	if r := w.Revs[ver]; r == nil || r.Applied != cs.K || r.Error == "" {
 		return fmt.Sprintf("setup: partial revision is %s, want applied=%d", world.SemRev(r), cs.K), "setup", nil
 	}
 	before := world.SemRev(w.Revs[ver])
@@ -114,7 +114,7 @@ func one(cs Case) (why, key string, trace []string) {
 			execs = append(execs, x.Stmt)
 		}
 	}
-	prefixSame := len(cs.Out) >= cs.K && reflect.DeepEqual(cs.Out[:cs.K], o[:cs.K])
+	prefixSame := len(cs.Out) >= cs.K && strings.Join(cs.Out[:cs.K], "\x00") == strings.Join(o[:cs.K], "\x00")
 	editKind := cs.Edit
 	if i := strings.Index(editKind, "@"); i >= 0 {
 		editKind = editKind[:i]
@@ -189,7 +189,7 @@ func run(c *rt.Ctx) {
 		for _, extra := range extras {
 			for n := 1; n <= maxN; n++ {
 				o := orig(n)
-				for k := 1; k < n; k++ {
+				for k := 0; k < n; k++ { // k = 0: the first statement failed, nothing is applied yet
 					add := func(name string, out []string) {
 						cases = append(cases, Case{N: n, K: k, Edit: name, Out: out, Extra: extra, Style: style})
 					}
@@ -225,7 +225,7 @@ func run(c *rt.Ctx) {
 		if j := strings.Index(kind, "@"); j >= 0 {
 			kind = kind[:j]
 		}
-		prefixSame := len(cs.Out) >= cs.K && reflect.DeepEqual(cs.Out[:cs.K], orig(cs.N)[:cs.K])
+		prefixSame := len(cs.Out) >= cs.K && strings.Join(cs.Out[:cs.K], "\x00") == strings.Join(orig(cs.N)[:cs.K], "\x00")
 		cls := "prefix-changed"
 		if prefixSame {
 			cls = "tail-only"
